@@ -122,6 +122,8 @@ func (v Violation) Key() string { return v.Property + "/" + v.Rule + "/" + v.Sig
 // run does not stop at them (set by the driver from known-findings.jsonl).
 var KnownSigs = map[string]bool{}
 
+var relabelForC14 = map[string]bool{"C03": true, "C04": true, "C05": true, "C06": true, "C08": true}
+
 // World is one simulated execution.
 type World struct {
 	Cfg   *Config
@@ -201,6 +203,12 @@ func (w *World) Trace() []string { return w.trace }
 func (w *World) Report(v Violation) {
 	if v.Seq == 0 {
 		v.Seq = w.C.Seq
+	}
+	if w.Cfg.Property == "C14" && relabelForC14[v.Property] {
+		// the sliced configuration must behave like the inline one: violations of the
+		// rollout/teardown/status/archival properties in a sliced run are C14 violations
+		v.Rule = v.Property + "-" + v.Rule
+		v.Property = "C14"
 	}
 	k := v.Key()
 	if w.violSeen[k] {
